@@ -63,6 +63,7 @@ def make_engine_class():
 
     class TinyEngine(Engine):
         lazy = False
+        validations = 0
         kill_at = None  # raise ProcessKilledException inside the iteration whose batch index equals kill_at
         seen = None
 
@@ -87,7 +88,11 @@ def make_engine_class():
             return iter(())
 
         def evaluate(self, *a, **k):
-            return {}, {}, [], []
+            import torch as _t
+
+            type(self).validations += 1
+            img = _t.ones(1, 4, 4)
+            return {"l1_loss": _t.tensor(0.0)}, {"vol": {"m_metric": _t.tensor(1.0)}}, [img], [img * 2]
 
         def log_first_training_example_and_model(self, data):
             pass
@@ -118,7 +123,7 @@ def make_model(w0=0.0):
     return M()
 
 
-def make_cfg(num_iterations, gradient_steps=1, gradient_clipping=0.0, checkpoint_steps=10**9, batch_size=1):
+def make_cfg(num_iterations, gradient_steps=1, gradient_clipping=0.0, checkpoint_steps=10**9, batch_size=1, validation_steps=10**9):
     from omegaconf import OmegaConf
     from direct.config.defaults import CheckpointerConfig, DefaultConfig, ModelConfig, TrainingConfig, ValidationConfig
 
@@ -127,14 +132,14 @@ def make_cfg(num_iterations, gradient_steps=1, gradient_clipping=0.0, checkpoint
         gradient_steps=gradient_steps,
         gradient_clipping=gradient_clipping,
         batch_size=batch_size,
-        validation_steps=10**9,
+        validation_steps=validation_steps,
         checkpointer=CheckpointerConfig(checkpoint_steps=checkpoint_steps),
     )
     cfg = OmegaConf.structured(DefaultConfig(model=ModelConfig(model_name="tiny"), training=tr, validation=ValidationConfig()))
     return cfg
 
 
-def train(exp_dir, grads, batches, num_iterations, k=1, clip=0.0, lr=0.5, opt="sgd", sched=None, resume=False, kill_at=None, w0=0.0, checkpoint_steps=10**9, seen=None, momentum=0.0, lazy_batches=False):
+def train(exp_dir, grads, batches, num_iterations, k=1, clip=0.0, lr=0.5, opt="sgd", sched=None, resume=False, kill_at=None, w0=0.0, checkpoint_steps=10**9, seen=None, momentum=0.0, lazy_batches=False, validation_steps=None, extra_model=False, stale_grads=None):
     """Run Engine.train once. Returns dict(w, lr_last_epoch, exited, lrs).
 
     sched: None -> LambdaLR with factor 2^-(epoch // 3); or a callable (optimizer) -> scheduler.
@@ -145,12 +150,18 @@ def train(exp_dir, grads, batches, num_iterations, k=1, clip=0.0, lr=0.5, opt="s
 
     TinyEngine = make_engine_class()
     model = make_model(w0)
-    cfg = make_cfg(num_iterations, k, clip, checkpoint_steps, batch_size=len(batches[0]) if batches else 1)
-    eng = TinyEngine(cfg, model, device="cpu")
+    cfg = make_cfg(num_iterations, k, clip, checkpoint_steps, batch_size=len(batches[0]) if batches else 1, validation_steps=validation_steps or 10**9)
+    extra = make_model(0.0) if extra_model else None
+    eng = TinyEngine(cfg, model, device="cpu", **({"additional_model": extra} if extra_model else {}))
+    params = list(model.parameters()) + (list(extra.parameters()) if extra_model else [])
     if opt == "sgd":
-        optimizer = torch.optim.SGD(model.parameters(), lr=lr, momentum=momentum)
+        optimizer = torch.optim.SGD(params, lr=lr, momentum=momentum)
     else:
-        optimizer = torch.optim.Adam(model.parameters(), lr=lr)
+        optimizer = torch.optim.Adam(params, lr=lr)
+    if stale_grads is not None:
+        # gradients left over from a smoke test before training starts
+        for p_, g_ in zip(params, stale_grads):
+            p_.grad = torch.full_like(p_, float(g_))
     if sched is None:
         scheduler = torch.optim.lr_scheduler.LambdaLR(optimizer, lambda e: 2.0 ** (-(e // 3)))
     else:
@@ -173,11 +184,17 @@ def train(exp_dir, grads, batches, num_iterations, k=1, clip=0.0, lr=0.5, opt="s
     exited = None
     try:
         try:
-            eng.train(optimizer, scheduler, [_GradDataset(grads)], pathlib.Path(exp_dir), resume=resume, num_workers=0)
+            vds = None
+            if validation_steps:
+                vd = _GradDataset(grads[:2])
+                vd.text_description = "val"
+                vds = [vd]
+            TinyEngine.validations = 0
+            eng.train(optimizer, scheduler, [_GradDataset(grads)], pathlib.Path(exp_dir), validation_datasets=vds, resume=resume, num_workers=0)
         except SystemExit as e:
             exited = e.code
     finally:
         E.ConcatDatasetBatchSampler = old
         TinyEngine.kill_at = None
         TinyEngine.seen = None
-    return {"w": float(model.w.item()), "last_epoch": int(scheduler.last_epoch), "exited": exited, "steps": lrs}
+    return {"w": float(model.w.item()), "last_epoch": int(scheduler.last_epoch), "exited": exited, "steps": lrs, "validations": TinyEngine.validations, "w_extra": float(extra.w.item()) if extra_model else None}
